@@ -40,3 +40,11 @@ META["C13"] = dict(
     note="Trusts internal/cborx for the v2 layout and the record->view rendering used as the expected value.",
     technique="runtime monitoring: differential oracle (independently encoded v2 records vs accessors after real migration), byte-diff of store across restarts",
 )
+
+META["C03"] = dict(
+    text=("Held on K generated histories: trace predicates P1-P5 of DESIGN C03 evaluated over the real snapshot stream of initiator/responder channels, plus the "
+          "exhaustive single-step relation over injected (status, flags, role) x operation. Histories are sampled; the single-step product is complete for the 15 real statuses."),
+    design_ref="DESIGN.md §2 C03",
+    note="Trusts the event classification table and the snapshot stream as observation; manager-level two-party variant is part of C03 parts when present.",
+    technique="runtime monitoring: online trace-predicate checker over recorded (event, before, after) steps; state injection for the one-step relation",
+)
